@@ -31,6 +31,9 @@ CONSTANTS
   MaxClock,      \* bound on the logical clock when model checking
   MaxAttempts,   \* OCC attempts per commit when model checking (the code: 50)
   InitSnaps,     \* number of snapshots the initial table has (each holding one data file)
+  InitTable,     \* "healthy" | "absent" (nothing on storage) | "hintlost" (pointer file missing) |
+                 \* "hintgarbage" (pointer file holds bytes that do not parse)
+  FixOrphanMeta, \* TRUE: model the repaired commit(): a metadata file written by a commit that failed cleanly is removed
   FixStamp,      \* TRUE: model the repaired OCC stamp (last_updated_ms strictly increases per commit)
   FixEtag,       \* TRUE: model the repaired CAS read (pointer must still name the validated version)
   FixGCOrder,    \* TRUE: model the repaired collector (markers loaded before the metadata read)
@@ -137,11 +140,12 @@ VARIABLES
   outcomes,   \* actor -> sequence of "ok" | "cme" | "error" | "ambiguous" | "false"
   reads,      \* reader observations: sequence of [a, from, to, files]
   deleted,    \* set of [f, by, i, at]: every file deletion that happened
-  initBody    \* the metadata version that was current initially (ghost, never changes)
+  initBody,   \* the metadata version that was current initially (ghost, never changes)
+  joined      \* identities (table uuids) the callers of create/open ended up on (ghost)
 
 storageVars == <<hint, metas, metaTime, lists, mans, present, ftime, markers, mtimeM>>
 actorVars   == <<pc, opi, att, loc>>
-ghostVars   == <<commitLog, serial, tsOf, sidOfOp, outcomes, reads, deleted, initBody>>
+ghostVars   == <<commitLog, serial, tsOf, sidOfOp, outcomes, reads, deleted, initBody, joined>>
 vars == <<storageVars, clock, lockHolder, rlock, actorVars, faults, lease, ghostVars>>
 
 Committers == {a \in Actors : Role[a] = "committer"}
@@ -171,6 +175,9 @@ HandleFree(a) == rlock[Handle[a]] \in {"none", a}
 ResolveName == IF HintedName # NoName THEN HintedName
                ELSE IF BestSet = {} THEN NoName ELSE CHOOSE n \in BestSet : TRUE
 
+NoBody == [uuid |-> 0, cur |-> 0, lastUpd |-> 0, lastSeq |-> 0, snaps |-> <<>>, slog |-> <<>>, mlog |-> <<>>]
+ResolvedBody == IF ResolveName = NoName THEN NoBody ELSE metas[ResolveName]
+
 \* files of a snapshot as seen through list -> manifests (requires presence; see FilesOfSnap)
 FilesOfList(l) == UNION {{e.file : e \in mans[lists[l][j]]} : j \in 1..Len(lists[l])}
 
@@ -190,14 +197,19 @@ InitBody(k) ==
    mlog |-> [j \in 1..k |-> [v |-> j - 1, u |-> 900 + j - 1]]]
 InitName(k) == [v |-> k, u |-> 900 + k]
 
+InitNames == IF InitTable = "absent" THEN {} ELSE {InitName(k) : k \in 0..InitSnaps}
+
 Init ==
-  /\ hint = [cls |-> "name", name |-> InitName(InitSnaps)]
-  /\ metas = [n \in {InitName(k) : k \in 0..InitSnaps} |-> InitBody(n.v)]
-  /\ metaTime = [n \in {InitName(k) : k \in 0..InitSnaps} |-> n.v]
-  /\ lists = [l \in {920 + j : j \in 1..InitSnaps} |-> [i \in 1..(l - 920) |-> 940 + i]]
-  /\ mans = [m \in {940 + j : j \in 1..InitSnaps} |-> {[file |-> 960 + (m - 940), status |-> "ADDED", snap |-> 900 + (m - 940), seq |-> m - 940]}]
-  /\ present = {920 + j : j \in 1..InitSnaps} \cup {940 + j : j \in 1..InitSnaps} \cup {960 + j : j \in 1..InitSnaps}
-  /\ ftime = [f \in ({920 + j : j \in 1..InitSnaps} \cup {940 + j : j \in 1..InitSnaps} \cup {960 + j : j \in 1..InitSnaps}) |-> OldTime]
+  /\ hint = (IF InitTable = "healthy" THEN [cls |-> "name", name |-> InitName(InitSnaps)]
+             ELSE IF InitTable = "hintgarbage" THEN [cls |-> "garbage", name |-> NoName]
+             ELSE [cls |-> "missing", name |-> NoName])
+  /\ metas = [n \in InitNames |-> InitBody(n.v)]
+  /\ metaTime = [n \in InitNames |-> n.v]
+  /\ LET K == IF InitTable = "absent" THEN 0 ELSE InitSnaps IN
+     /\ lists = [l \in {920 + j : j \in 1..K} |-> [i \in 1..(l - 920) |-> 940 + i]]
+     /\ mans = [m \in {940 + j : j \in 1..K} |-> {[file |-> 960 + (m - 940), status |-> "ADDED", snap |-> 900 + (m - 940), seq |-> m - 940]}]
+     /\ present = {920 + j : j \in 1..K} \cup {940 + j : j \in 1..K} \cup {960 + j : j \in 1..K}
+     /\ ftime = [f \in ({920 + j : j \in 1..K} \cup {940 + j : j \in 1..K} \cup {960 + j : j \in 1..K}) |-> OldTime]
   /\ markers = {}
   /\ mtimeM = <<>>
   /\ clock = InitSnaps
@@ -210,14 +222,17 @@ Init ==
   /\ faults = FaultBudget
   /\ lease = [t |-> 0, lost |-> {}]
   /\ commitLog = <<>>
-  /\ serial = [files |-> {960 + j : j \in 1..InitSnaps}, snaps |-> [j \in 1..InitSnaps |-> 900 + j],
-               cur |-> IF InitSnaps = 0 THEN 0 ELSE 900 + InitSnaps]
-  /\ tsOf = [s \in {900 + j : j \in 1..InitSnaps} |-> [ts |-> s - 900, files |-> {960 + i : i \in 1..(s - 900)}]]
+  /\ serial = (IF InitTable = "absent" THEN [files |-> {}, snaps |-> <<>>, cur |-> 0]
+               ELSE [files |-> {960 + j : j \in 1..InitSnaps}, snaps |-> [j \in 1..InitSnaps |-> 900 + j],
+                     cur |-> IF InitSnaps = 0 THEN 0 ELSE 900 + InitSnaps])
+  /\ tsOf = (IF InitTable = "absent" THEN <<>>
+             ELSE [s \in {900 + j : j \in 1..InitSnaps} |-> [ts |-> s - 900, files |-> {960 + i : i \in 1..(s - 900)}]])
   /\ sidOfOp = <<>>
   /\ outcomes = [a \in Actors |-> <<>>]
   /\ reads = <<>>
   /\ deleted = {}
-  /\ initBody = InitBody(InitSnaps)
+  /\ initBody = (IF InitTable = "absent" THEN NoBody ELSE InitBody(InitSnaps))
+  /\ joined = {}
 
 (***************************************************************************)
 (* Clock.  Now(a) is the value a clock read returns; ClockAfterRead the     *)
@@ -234,6 +249,19 @@ Tick ==
   /\ clock < MaxClock
   /\ clock' = clock + 1
   /\ UNCHANGED <<storageVars, lockHolder, rlock, actorVars, faults, lease, ghostVars>>
+
+(***************************************************************************)
+(* The pointer file is damaged from outside (C10): lost, overwritten with   *)
+(* bytes that do not parse, replaced by a well-formed name of an older      *)
+(* committed version (stale) or of a file that does not exist (dangling;    *)
+(* the legacy bare-number form of a version also lands here because current *)
+(* metadata files carry a random suffix).                                   *)
+(***************************************************************************)
+DamageHint(cls, name) ==
+  /\ cls \in {"missing", "garbage", "name"}
+  /\ cls # "name" => name = NoName
+  /\ hint' = [cls |-> cls, name |-> name]
+  /\ UNCHANGED <<metas, metaTime, lists, mans, present, ftime, markers, mtimeM, clock, lockHolder, rlock, actorVars, faults, lease, ghostVars>>
 
 (***************************************************************************)
 (* Committer.                                                              *)
@@ -255,7 +283,7 @@ Begin(a) ==
   /\ Role[a] = "committer"
   /\ loc' = [loc EXCEPT ![a] = EmptyLoc]
   /\ att' = [att EXCEPT ![a] = 0]
-  /\ pc' = [pc EXCEPT ![a] = IF OpKind(a) = "delsnap" THEN "ds_resolve" ELSE "tx_check"]
+  /\ pc' = [pc EXCEPT ![a] = IF OpKind(a) = "delsnap" THEN "ds_resolve" ELSE IF OpKind(a) = "create" THEN "k_open" ELSE "tx_check"]
   /\ UNCHANGED <<storageVars, clock, lockHolder, rlock, opi, faults, lease, ghostVars>>
 
 NextAppend(a) == AppendFiles(a)[Len(loc[a].files) + 1]
@@ -538,7 +566,7 @@ FlipHint(a) ==
         ELSE /\ pc' = [pc EXCEPT ![a] = "c_unlock"]
              /\ loc' = [loc EXCEPT ![a].after = "cme"]
              /\ UNCHANGED <<hint, commitLog, serial, tsOf, sidOfOp>>
-  /\ UNCHANGED <<metas, metaTime, lists, mans, present, ftime, markers, mtimeM, clock, lockHolder, rlock, opi, att, faults, lease, outcomes, reads, deleted, initBody>>
+  /\ UNCHANGED <<metas, metaTime, lists, mans, present, ftime, markers, mtimeM, clock, lockHolder, rlock, opi, att, faults, lease, outcomes, reads, deleted, initBody, joined>>
 
 \* release of the distributed lock, then of the handle's thread lock; where control goes afterwards
 \* was decided by whoever entered the unlock path (loc.after)
@@ -588,7 +616,7 @@ ReturnOk(a) ==
   /\ outcomes' = [outcomes EXCEPT ![a] = Append(@, "ok")]
   /\ pc' = [pc EXCEPT ![a] = "idle"]
   /\ opi' = [opi EXCEPT ![a] = @ + 1]
-  /\ UNCHANGED <<storageVars, clock, lockHolder, rlock, att, loc, faults, lease, commitLog, serial, tsOf, sidOfOp, reads, deleted, initBody>>
+  /\ UNCHANGED <<storageVars, clock, lockHolder, rlock, att, loc, faults, lease, commitLog, serial, tsOf, sidOfOp, reads, deleted, initBody, joined>>
 
 \* _rollback(): delete the DATA files this transaction wrote, then its markers (transaction.py:648-663)
 RollbackDeleteData(a, f) ==
@@ -597,7 +625,7 @@ RollbackDeleteData(a, f) ==
   /\ present' = present \ {f}
   /\ deleted' = deleted \cup {[f |-> f, by |-> a, i |-> opi[a], at |-> Len(commitLog)]}
   /\ loc' = [loc EXCEPT ![a].files = SelectSeq(@, LAMBDA x : x # f)]
-  /\ UNCHANGED <<hint, metas, metaTime, lists, mans, ftime, markers, mtimeM, clock, lockHolder, rlock, pc, opi, att, faults, lease, commitLog, serial, tsOf, sidOfOp, outcomes, reads, initBody>>
+  /\ UNCHANGED <<hint, metas, metaTime, lists, mans, ftime, markers, mtimeM, clock, lockHolder, rlock, pc, opi, att, faults, lease, commitLog, serial, tsOf, sidOfOp, outcomes, reads, initBody, joined>>
 
 RollbackDeleteMarker(a, f) ==
   /\ pc[a] = "rollback"
@@ -614,7 +642,7 @@ ReturnErrLeaving(a) ==
   /\ outcomes' = [outcomes EXCEPT ![a] = Append(@, loc[a].err)]
   /\ pc' = [pc EXCEPT ![a] = "idle"]
   /\ opi' = [opi EXCEPT ![a] = @ + 1]
-  /\ UNCHANGED <<storageVars, clock, lockHolder, rlock, att, loc, faults, lease, commitLog, serial, tsOf, sidOfOp, reads, deleted, initBody>>
+  /\ UNCHANGED <<storageVars, clock, lockHolder, rlock, att, loc, faults, lease, commitLog, serial, tsOf, sidOfOp, reads, deleted, initBody, joined>>
 
 ReturnErr(a) ==
   /\ \/ pc[a] = "rollback" /\ loc[a].files = <<>> /\ loc[a].marks = {}
@@ -622,7 +650,7 @@ ReturnErr(a) ==
   /\ outcomes' = [outcomes EXCEPT ![a] = Append(@, loc[a].err)]
   /\ pc' = [pc EXCEPT ![a] = "idle"]
   /\ opi' = [opi EXCEPT ![a] = @ + 1]
-  /\ UNCHANGED <<storageVars, clock, lockHolder, rlock, att, loc, faults, lease, commitLog, serial, tsOf, sidOfOp, reads, deleted, initBody>>
+  /\ UNCHANGED <<storageVars, clock, lockHolder, rlock, att, loc, faults, lease, commitLog, serial, tsOf, sidOfOp, reads, deleted, initBody, joined>>
 
 (***************************************************************************)
 (* Faults (C04).  Fault(a, kind) makes the storage call (or, for "async",    *)
@@ -704,7 +732,7 @@ Fault(a, kind) ==
         /\ pc' = [pc EXCEPT ![a] = IF RollsBack(a, kind, TRUE) THEN "rollback" ELSE "raise_keep"]
         /\ loc' = [loc EXCEPT ![a].err = "interrupted"]
         /\ UNCHANGED <<hint, commitLog, serial, tsOf, sidOfOp>>
-  /\ UNCHANGED <<metas, metaTime, lists, mans, present, ftime, markers, mtimeM, clock, lockHolder, rlock, opi, att, lease, outcomes, reads, deleted, initBody>>
+  /\ UNCHANGED <<metas, metaTime, lists, mans, present, ftime, markers, mtimeM, clock, lockHolder, rlock, opi, att, lease, outcomes, reads, deleted, initBody, joined>>
 
 \* best-effort steps whose failure is swallowed: a marker that could not be removed stays
 SkipMarker(a, f) ==
@@ -725,6 +753,100 @@ SkipRollbackData(a, f) ==
   /\ loc' = [loc EXCEPT ![a].files = SelectSeq(@, LAMBDA x : x # f)]
   /\ UNCHANGED <<storageVars, clock, lockHolder, rlock, pc, opi, att, lease, ghostVars>>
 
+(***************************************************************************)
+(* Table creation / opening (transaction.py:733-783 Table.__init__,         *)
+(* metadata_manager.py:67-118 initialize_table) as the operation "create":   *)
+(* refresh; if nothing is resolvable: thread lock, distributed lock,         *)
+(* resolve again under the lock (anything resolvable => TableExistsError =>  *)
+(* adopt), stamp, write v0, write the pointer (CAS backends: create-if-      *)
+(* absent; a conflict => TableExistsError => adopt), unlock.                *)
+(***************************************************************************)
+KOpen(a, name) ==
+  /\ pc[a] = "k_open"
+  /\ HandleFree(a)
+  /\ CanResolve(name)
+  /\ pc' = [pc EXCEPT ![a] = IF name = NoName THEN "k_tlock" ELSE "k_done"]
+  /\ UNCHANGED <<storageVars, clock, lockHolder, rlock, opi, att, loc, faults, lease, ghostVars>>
+
+KTLock(a) ==
+  /\ pc[a] = "k_tlock"
+  /\ rlock[Handle[a]] = "none"
+  /\ rlock' = [rlock EXCEPT ![Handle[a]] = a]
+  /\ pc' = [pc EXCEPT ![a] = "k_dlock"]
+  /\ UNCHANGED <<storageVars, clock, lockHolder, opi, att, loc, faults, lease, ghostVars>>
+
+KDLock(a) ==
+  /\ pc[a] = "k_dlock"
+  /\ \/ LockKind = "none" /\ UNCHANGED <<lockHolder, lease>>
+     \/ LockKind # "none" /\ lockHolder = "none" /\ lockHolder' = a /\ lease' = [lease EXCEPT !.t = clock]
+  /\ pc' = [pc EXCEPT ![a] = "k_check"]
+  /\ UNCHANGED <<storageVars, clock, rlock, opi, att, loc, faults, ghostVars>>
+
+\* _current_version_info() under the lock: any recoverable version means the table exists
+KCheck(a, name) ==
+  /\ pc[a] = "k_check"
+  /\ CanResolve(name)
+  /\ pc' = [pc EXCEPT ![a] = IF name = NoName THEN "k_stamp" ELSE "k_unlock"]
+  /\ UNCHANGED <<storageVars, clock, lockHolder, rlock, opi, att, loc, faults, lease, ghostVars>>
+
+KStamp(a, t) ==
+  /\ pc[a] = "k_stamp"
+  /\ ClockOK(t)
+  /\ clock' = t
+  /\ loc' = [loc EXCEPT ![a].ts = t]
+  /\ pc' = [pc EXCEPT ![a] = "k_wmeta"]
+  /\ UNCHANGED <<storageVars, lockHolder, rlock, opi, att, faults, lease, ghostVars>>
+
+KWriteMeta(a, name, uuid) ==
+  /\ pc[a] = "k_wmeta"
+  /\ name.v = 0
+  /\ name \notin DOMAIN metas
+  /\ uuid \notin {metas[n].uuid : n \in DOMAIN metas}
+  /\ metas' = (name :> [NoBody EXCEPT !.uuid = uuid, !.lastUpd = loc[a].ts]) @@ metas
+  /\ metaTime' = (name :> clock) @@ metaTime
+  /\ loc' = [loc EXCEPT ![a].target = name.u, ![a].nextVer = 0]
+  /\ pc' = [pc EXCEPT ![a] = "k_whint"]
+  /\ UNCHANGED <<hint, lists, mans, present, ftime, markers, mtimeM, clock, lockHolder, rlock, opi, att, faults, lease, ghostVars>>
+
+\* the pointer write of an initialisation: create-if-absent on CAS backends, plain overwrite otherwise
+KWriteHint(a) ==
+  /\ pc[a] = "k_whint"
+  /\ IF Backend # "s3cas" \/ hint.cls = "missing"
+     THEN /\ hint' = [cls |-> "name", name |-> MyMetaName(a)]
+          /\ commitLog' = Append(commitLog, [a |-> a, i |-> opi[a], name |-> MyMetaName(a), op |-> "create",
+                                              replaced |-> hint.name, validated |-> NoName, lost |-> FALSE])
+     ELSE UNCHANGED <<hint, commitLog>>          \* lost the creation race: TableExistsError, adopt
+  /\ pc' = [pc EXCEPT ![a] = "k_unlock"]
+  /\ UNCHANGED <<metas, metaTime, lists, mans, present, ftime, markers, mtimeM, clock, lockHolder, rlock, opi, att, loc, faults, lease,
+                 serial, tsOf, sidOfOp, outcomes, reads, deleted, initBody, joined>>
+
+KDUnlock(a) ==
+  /\ pc[a] = "k_unlock"
+  /\ lockHolder' = IF lockHolder = a THEN "none" ELSE lockHolder
+  /\ pc' = [pc EXCEPT ![a] = "k_tunlock"]
+  /\ UNCHANGED <<storageVars, clock, rlock, opi, att, loc, faults, lease, ghostVars>>
+
+KTUnlock(a) ==
+  /\ pc[a] = "k_tunlock"
+  /\ rlock' = [rlock EXCEPT ![Handle[a]] = "none"]
+  /\ pc' = [pc EXCEPT ![a] = "k_done"]
+  /\ UNCHANGED <<storageVars, clock, lockHolder, opi, att, loc, faults, lease, ghostVars>>
+
+\* the constructor returns: the caller is on whatever table is resolvable now
+KReturn(a) ==
+  /\ pc[a] = "k_done"
+  /\ outcomes' = [outcomes EXCEPT ![a] = Append(@, "ok")]
+  /\ joined' = joined \cup {ResolvedBody.uuid}
+  /\ pc' = [pc EXCEPT ![a] = "idle"]
+  /\ opi' = [opi EXCEPT ![a] = @ + 1]
+  /\ UNCHANGED <<storageVars, clock, lockHolder, rlock, att, loc, faults, lease, commitLog, serial, tsOf, sidOfOp, reads, deleted, initBody>>
+
+CreateNext(a) ==
+  \/ \E n \in DOMAIN metas \cup {NoName} : KOpen(a, n) \/ KCheck(a, n)
+  \/ KTLock(a) \/ KDLock(a) \/ KStamp(a, NowVal)
+  \/ KWriteMeta(a, [v |-> 0, u |-> Idx[a] * 1000 + opi[a] * 100], 10 + Idx[a])
+  \/ KWriteHint(a) \/ KDUnlock(a) \/ KTUnlock(a) \/ KReturn(a)
+
 \* ---- delete_snapshot (snapshot_manager.py:258-301): refresh, build, commit, no retry ----
 DsResolve(a, name) ==
   /\ pc[a] = "ds_resolve"
@@ -743,7 +865,7 @@ DsResolve(a, name) ==
              /\ pc' = [pc EXCEPT ![a] = "idle"]
              /\ opi' = [opi EXCEPT ![a] = @ + 1]
              /\ UNCHANGED <<loc, att>>
-  /\ UNCHANGED <<storageVars, clock, lockHolder, rlock, faults, lease, commitLog, serial, tsOf, sidOfOp, reads, deleted, initBody>>
+  /\ UNCHANGED <<storageVars, clock, lockHolder, rlock, faults, lease, commitLog, serial, tsOf, sidOfOp, reads, deleted, initBody, joined>>
 
 (***************************************************************************)
 (* Reader (Table._get_all_data_files + data reads).                        *)
@@ -802,7 +924,7 @@ RReturn(a) ==
                              err |-> loc[a].err, cur |-> loc[a].body.cur])
   /\ pc' = [pc EXCEPT ![a] = "idle"]
   /\ opi' = [opi EXCEPT ![a] = @ + 1]
-  /\ UNCHANGED <<storageVars, clock, lockHolder, rlock, att, loc, faults, lease, commitLog, serial, tsOf, sidOfOp, outcomes, deleted, initBody>>
+  /\ UNCHANGED <<storageVars, clock, lockHolder, rlock, att, loc, faults, lease, commitLog, serial, tsOf, sidOfOp, outcomes, deleted, initBody, joined>>
 
 (***************************************************************************)
 (* Collector (garbage_collector.py:54-270).                                *)
@@ -993,7 +1115,7 @@ GDelete(a, f) ==
   /\ present' = present \ {f}
   /\ deleted' = deleted \cup {[f |-> f, by |-> a, i |-> opi[a], at |-> loc[a].from]}
   /\ loc' = [loc EXCEPT ![a].cand = @ \ {f}]
-  /\ UNCHANGED <<hint, metas, metaTime, lists, mans, ftime, markers, mtimeM, clock, lockHolder, rlock, pc, opi, att, faults, lease, commitLog, serial, tsOf, sidOfOp, outcomes, reads, initBody>>
+  /\ UNCHANGED <<hint, metas, metaTime, lists, mans, ftime, markers, mtimeM, clock, lockHolder, rlock, pc, opi, att, faults, lease, commitLog, serial, tsOf, sidOfOp, outcomes, reads, initBody, joined>>
 
 GReturn(a) ==
   /\ Role[a] = "collector"
@@ -1003,7 +1125,7 @@ GReturn(a) ==
   /\ outcomes' = [outcomes EXCEPT ![a] = Append(@, IF pc[a] = "g_abort" \/ loc[a].esc THEN "aborted" ELSE "ok")]
   /\ pc' = [pc EXCEPT ![a] = "idle"]
   /\ opi' = [opi EXCEPT ![a] = @ + 1]
-  /\ UNCHANGED <<storageVars, clock, lockHolder, rlock, att, loc, faults, lease, commitLog, serial, tsOf, sidOfOp, reads, deleted, initBody>>
+  /\ UNCHANGED <<storageVars, clock, lockHolder, rlock, att, loc, faults, lease, commitLog, serial, tsOf, sidOfOp, reads, deleted, initBody, joined>>
 
 GFaultReachB(a) ==
   /\ Role[a] = "collector"
@@ -1095,6 +1217,7 @@ CommitterNext(a) ==
   \/ \E f \in loc[a].marks : DeleteMarker(a, f) \/ RollbackDeleteMarker(a, f)
   \/ \E f \in SeqToSet(loc[a].files) : RollbackDeleteData(a, f)
   \/ ReturnOk(a) \/ ReturnErr(a) \/ Finish(a) \/ Heartbeat(a)
+  \/ CreateNext(a)
   \/ \E k \in FaultKinds : Fault(a, k)
   \/ \E f \in loc[a].marks : SkipMarker(a, f)
   \/ \E f \in SeqToSet(loc[a].files) : SkipRollbackData(a, f)
@@ -1119,7 +1242,7 @@ AllDone == \A a \in Actors : pc[a] = "idle" /\ opi[a] > Len(Prog[a])
 (***************************************************************************)
 (* Properties.                                                             *)
 (***************************************************************************)
-CurBody == IF ResolveName = NoName THEN <<>> ELSE metas[ResolveName]
+CurBody == ResolvedBody
 
 \* What the table on storage *is*: retained snapshot ids in list order, current id, files of current.
 Observed ==
@@ -1130,7 +1253,12 @@ Observed ==
 
 \* C01: the table equals the acknowledged history applied in pointer order (evaluated whenever no
 \* commit is between its pointer flip and ... in every state: the pointer flip is atomic).
-Serializable == Observed = serial
+\* While the pointer is lost or damaged, resolution falls back to scanning the metadata files, and a
+\* version becomes visible when its FILE is written, i.e. between WriteMeta and FlipHint of a commit in
+\* flight; in that window (only) the comparison is suspended.  A version left behind by a commit that
+\* FAILED is not exempt: it must not be what the table resolves to (C10).
+CommitInFlight == \E a \in Actors : pc[a] \in {"c_fence", "c_flip", "k_whint"}
+Serializable == (HintedName # NoName \/ ~CommitInFlight) => Observed = serial
 
 \* C01: the retained chain is linear with strictly increasing sequence numbers <= lastSeq
 LinearChain ==
@@ -1144,7 +1272,7 @@ LinearChain ==
 CountIn(a, i) == Cardinality({k \in 1..Len(commitLog) : commitLog[k].a = a /\ commitLog[k].i = i})
 AckedOnce ==
   \A a \in Committers : \A i \in 1..Len(outcomes[a]) :
-     /\ outcomes[a][i] = "ok" => CountIn(a, i) = 1
+     /\ outcomes[a][i] = "ok" => (IF Prog[a][i].t = "create" THEN CountIn(a, i) <= 1 ELSE CountIn(a, i) = 1)
      /\ outcomes[a][i] \in {"cme", "error", "false"} => CountIn(a, i) = 0
      /\ outcomes[a][i] \in {"ambiguous", "interrupted"} => CountIn(a, i) <= 1
 NoDoubleCommit == \A a \in Committers : \A i \in 1..Len(Prog[a]) : CountIn(a, i) <= 1
@@ -1159,7 +1287,33 @@ ReachablePresent == Reachable(CurBody) \subseteq present
 
 \* C08 (action property): a successful flip replaces exactly the version the committer validated
 FlipReplacesValidated ==
-  \A k \in 1..Len(commitLog) : commitLog[k].replaced = commitLog[k].validated \/ commitLog[k].validated = NoName
+  \A k \in 1..Len(commitLog) : \/ commitLog[k].replaced = commitLog[k].validated
+                                \/ commitLog[k].validated = NoName
+                                \/ commitLog[k].replaced = NoName          \* there was no (parseable) pointer to replace
+
+\* C18: exactly one initialisation takes effect: every metadata version that was ever current carries one
+\* table identity, and it is the initial table's identity when a table existed at the start
+\* every caller of create/open ends up on one and the same table, a pre-existing table keeps its identity,
+\* and once everybody is done the resolvable table is that one
+SingleInit ==
+  \* with a lock that excludes, nobody is ever - not even transiently - on another table than the others;
+  \* with a lock that grants everyone (CAS decides the pointer) a caller may transiently resolve a
+  \* creator's not-yet-published v0 by scanning, but everybody converges on one table
+  /\ LockKind # "none" => Cardinality(joined \cup (IF InitTable = "absent" THEN {} ELSE {UUID0})) <= 1
+  /\ 0 \notin joined
+  /\ (joined # {} /\ \A a \in Actors : pc[a] = "idle") =>
+        /\ ResolvedBody.uuid \in joined
+        /\ InitTable # "absent" => ResolvedBody.uuid = UUID0
+\* an existing table is never re-initialised: its committed snapshots stay reachable from whatever is current
+NeverReinitialised ==
+  InitTable # "absent" => \A k \in 1..Len(commitLog) : commitLog[k].op # "create"
+
+\* C10: whatever the pointer file contains, a table opened while nothing is in flight resolves to the
+\* latest COMMITTED metadata version
+LatestCommittedName ==
+  IF Len(commitLog) = 0 THEN (IF InitTable = "absent" THEN NoName ELSE InitName(InitSnaps))
+  ELSE commitLog[Len(commitLog)].name
+ResolveLatestCommitted == ~CommitInFlight => \A n \in DOMAIN metas \cup {NoName} : CanResolve(n) => n = LatestCommittedName
 
 \* C08: a committer whose lock was taken over before it passed the fence never commits that attempt
 LostLockNeverAcks == \A k \in 1..Len(commitLog) : ~commitLog[k].lost
